@@ -129,6 +129,8 @@ func CheckMain(prop, tier string) int {
 	start := time.Now()
 	b := RunBatch(s, tier, seed, workers, maxRuns, time.Duration(secs)*time.Second, Known)
 	wall := time.Since(start).Seconds()
+	attempt := 0
+retry:
 
 	if b.hp != nil {
 		fmt.Fprintf(os.Stderr, "HARNESS PANIC (exit 2) seed=%d: %v\n%s\n", b.hpSeed, b.hp.val, b.hp.stack)
@@ -161,7 +163,23 @@ func CheckMain(prop, tier string) int {
 		}
 		if reportPath == full {
 			if ok, out := FreshProcessReplay(full, b.viol.Inv); !ok && s.ID != "C18" {
-				fmt.Fprintf(os.Stderr, "violation did not reproduce in a fresh process (harness nondeterminism, exit 2)\n%s\n", out)
+				// Either the harness is not deterministic, or the code under test keeps state in
+				// process memory that an earlier run of this batch process left behind.  Such a
+				// violation cannot be handed out as a replay file; look for one that can (a
+				// different base seed), and give up with a harness error otherwise.
+				fmt.Fprintf(os.Stderr, "violation did not reproduce in a fresh process: %s\n%s\n", b.viol.String(), out)
+				left := time.Duration(secs)*time.Second - time.Since(start)
+				if attempt < 3 && left > 10*time.Second {
+					attempt++
+					b = RunBatch(s, tier, Mix(seed, uint64(attempt)), workers, maxRuns, left, Known)
+					wall = time.Since(start).Seconds()
+					if b.hp != nil {
+						fmt.Fprintf(os.Stderr, "HARNESS PANIC (exit 2) seed=%d: %v\n%s\n", b.hpSeed, b.hp.val, b.hp.stack)
+						return 2
+					}
+					goto retry
+				}
+				fmt.Fprintf(os.Stderr, "no reproducible violation found (harness nondeterminism or process-history dependence, exit 2)\n")
 				return 2
 			}
 		}
